@@ -36,6 +36,8 @@ pub open spec fn te_name() -> Seq<u8> { seq![116u8,114,97,110,115,102,101,114,45
 pub open spec fn cl_name() -> Seq<u8> { seq![99u8,111,110,116,101,110,116,45,108,101,110,103,116,104] }               // "content-length"
 pub open spec fn ce_name() -> Seq<u8> { seq![99u8,111,110,116,101,110,116,45,101,110,99,111,100,105,110,103] }        // "content-encoding"
 
+pub assume_specification [StatusCode::is_informational] (s: &StatusCode) -> (r: bool) ensures r == (100 <= status_u16(*s) < 200);
+pub assume_specification [StatusCode::is_success] (s: &StatusCode) -> (r: bool) ensures r == (200 <= status_u16(*s) < 300);
 pub assume_specification[ HeaderMap::<HeaderValue>::new ]() -> (r: HeaderMap<HeaderValue>)
     ensures hm_view(&r) == Seq::<(Seq<u8>, HeaderValue)>::empty();
 pub assume_specification<T>[ HeaderMap::<T>::len ](h: &HeaderMap<T>) -> (r: usize)
@@ -53,7 +55,12 @@ pub assume_specification<'a>[ HeaderName::from_bytes ](b: &'a [u8]) -> (r: std::
 pub assume_specification<'a>[ HeaderValue::from_bytes ](b: &'a [u8]) -> (r: std::result::Result<HeaderValue, http::header::InvalidHeaderValue>)
     ensures r is Ok <==> hv_ok(b@), r matches Ok(v) ==> hv_bytes(&v) == b@;
 pub assume_specification[ <http::Error as From<http::header::InvalidHeaderValue>>::from ](e: http::header::InvalidHeaderValue) -> (r: http::Error);
+//@@ ifdef errorkind
+pub assume_specification[ <Error as From<http::Error>>::from ](e: http::Error) -> (r: Error) ensures err_kind(r) is Http;
+//@@ endif
+//@@ ifndef errorkind
 pub assume_specification[ <Error as From<http::Error>>::from ](e: http::Error) -> (r: Error);
+//@@ endif
 
 // ---- generic std idioms over header lists (R1 wrappers; bodies are the repo's adapter chains with the closure abstracted)
 //@@ include str_prelude
